@@ -21,7 +21,7 @@ mod lin;
 mod sched;
 mod sys;
 
-use judge::{Analysis, analyze, keyed_failures};
+use judge::{Analysis, analyze};
 use proptest::prelude::*;
 use std::collections::{BTreeMap, HashMap, HashSet};
 use std::sync::Mutex;
@@ -95,10 +95,102 @@ fn classes_of(an: &Analysis, nontrivial: bool) -> Vec<&'static str> {
     c
 }
 
+/// Findings reported in this process: (key, category, system, message, reduced case).
+/// A later failing run in which the same race occurs is attributed to the same key
+/// without being reduced again.
+static ESTABLISHED: Mutex<Vec<(String, String, Sys, String, Case)>> = Mutex::new(Vec::new());
+
+enum Attributed {
+    /// listed open finding
+    Known(String),
+    /// not listed: (key, msg, reduced case)
+    Violation(String, String, Case),
+}
+
+/// Give every distinct failure category of a failing run its key.
+fn attribute(case: &Case, an: &Analysis, known: &Known, known_keys: &[String]) -> Result<Vec<Attributed>, String> {
+    let mut out = Vec::new();
+    let mut cats: Vec<&str> = Vec::new();
+    for f in &an.failures {
+        if cats.contains(&f.category.as_str()) {
+            continue;
+        }
+        cats.push(&f.category);
+        if f.category.starts_with("panic:") {
+            let key = format!("C11:{}:{}", case.sys.name(), f.category);
+            if known.is_open(&key) {
+                out.push(Attributed::Known(key));
+                continue;
+            }
+        }
+        // fast path: a listed or already reported race occurs in this run
+        if let Some(k) = known_keys.iter().find(|k| judge::key_matches(k, case.sys, &f.category, an)) {
+            out.push(Attributed::Known(k.clone()));
+            continue;
+        }
+        let hit = {
+            let g = ESTABLISHED.lock().unwrap_or_else(|e| e.into_inner());
+            g.iter().find(|(k, c, s, _, _)| *s == case.sys && *c == f.category && judge::key_matches(k, case.sys, &f.category, an)).map(|(k, _, _, m, c)| (k.clone(), m.clone(), c.clone()))
+        };
+        if let Some((k, m, c)) = hit {
+            out.push(Attributed::Violation(k, m, c));
+            continue;
+        }
+        let k = judge::keyed_failure(case, &f.category)?;
+        if known.is_open(&k.key) {
+            out.push(Attributed::Known(k.key));
+        } else {
+            let mut g = ESTABLISHED.lock().unwrap_or_else(|e| e.into_inner());
+            if !g.iter().any(|(key, ..)| *key == k.key) {
+                g.push((k.key.clone(), f.category.clone(), case.sys, k.msg.clone(), k.case.clone()));
+            }
+            out.push(Attributed::Violation(k.key, k.msg, k.case));
+        }
+    }
+    Ok(out)
+}
+
+fn open_keys(known: &Known, candidates: &[String]) -> Vec<String> {
+    candidates.iter().filter(|k| known.is_open(k)).cloned().collect()
+}
+
+/// Every key this check can produce for the race-independent categories, to find the
+/// listed ones (the engine's `Known` offers no iteration).
+fn candidate_keys() -> Vec<String> {
+    let kinds = ["clear", "contains", "get", "put", "remove", "read", "query", "write"];
+    let mut pairs: Vec<String> = Vec::new();
+    for (i, a) in kinds.iter().enumerate() {
+        for b in &kinds[i..] {
+            pairs.push(format!("{a}~{b}"));
+            pairs.push(format!("{a}~{b}/other-key"));
+        }
+    }
+    let mut races: Vec<String> = vec!["sequential".into(), "whole-ops".into(), "race=none".into()];
+    for (i, p) in pairs.iter().enumerate() {
+        races.push(format!("race={p}"));
+        for q in &pairs[i + 1..] {
+            races.push(format!("race={p}+{q}"));
+        }
+    }
+    let mut cats: Vec<String> = vec!["not-linearizable".into(), "books".into(), "torn-value".into(), "other-keys-value".into()];
+    for k in ["get", "contains", "put", "put_zero", "remove", "clear"] {
+        cats.push(format!("error-without-race:{k}"));
+    }
+    let mut out = Vec::new();
+    for sys in ["memory", "disk", "container"] {
+        for c in &cats {
+            for r in &races {
+                out.push(format!("C11:{sys}:{c}:{r}"));
+            }
+        }
+    }
+    out
+}
+
 /// Run and judge one case. Returns the verdict for the engine; failures carry
 /// their narrow key. Known-open keys are reported through `known_hits` so that
 /// a second, unknown failure of the same run is not hidden.
-fn check_case(case: &Case, known: &Known) -> Verdict {
+fn check_case(case: &Case, known: &Known, known_keys: &[String]) -> Verdict {
     let run = match run_case(case) {
         Ok(r) => r,
         Err(e) => {
@@ -113,32 +205,29 @@ fn check_case(case: &Case, known: &Known) -> Verdict {
     if an.failures.is_empty() {
         return v;
     }
-    match keyed_failures(case, &an) {
+    match attribute(case, &an, known, known_keys) {
         Err(e) => {
             infra(format!("{e} — case {}", serde_json::to_string(case).unwrap_or_default()));
             v.class("infrastructure-trouble")
         }
-        Ok(keyed) => {
-            let mut first_unknown = None;
-            for k in keyed {
-                if known.is_open(&k.key) {
-                    if !v.known_hits.contains(&k.key) {
-                        v.known_hits.push(k.key);
+        Ok(list) => {
+            for a in list {
+                match a {
+                    Attributed::Known(k) => {
+                        if !v.known_hits.contains(&k) {
+                            v.known_hits.push(k);
+                        }
                     }
-                } else if first_unknown.is_none() {
-                    first_unknown = Some(k);
+                    Attributed::Violation(k, m, _) => v = v.with_fail(k, m),
                 }
             }
-            match first_unknown {
-                Some(k) => v.with_fail(k.key, k.msg),
-                None => v,
-            }
+            v
         }
     }
 }
 
 // ---------------------------------------------------------------------------
-// exhaustive section: programs × all schedules with ≤ BOUND pre-emptions
+// exhaustive section: programs × all schedules with ≤ bound pre-emptions
 // ---------------------------------------------------------------------------
 
 #[derive(Debug, Clone)]
@@ -146,6 +235,8 @@ struct Program {
     sys: Sys,
     setup: Vec<Op>,
     tasks: Vec<Vec<Op>>,
+    /// pre-emption bound of the search for this program
+    bound: usize,
 }
 
 fn swap_keys(op: Op) -> Op {
@@ -158,7 +249,7 @@ fn swap_keys(op: Op) -> Op {
 
 /// All 2 × 2 programs over `alphabet`, one representative per symmetry class
 /// (exchange of the two tasks; exchange of the two keys when the setup is empty).
-fn programs_2x2(sys: Sys, alphabet: &[Op], setups: &[Vec<Op>]) -> Vec<Program> {
+fn programs_2x2(sys: Sys, alphabet: &[Op], setups: &[Vec<Op>], bound: usize) -> Vec<Program> {
     let mut out = Vec::new();
     for setup in setups {
         for &a0 in alphabet {
@@ -176,7 +267,7 @@ fn programs_2x2(sys: Sys, alphabet: &[Op], setups: &[Vec<Op>]) -> Vec<Program> {
                                 continue;
                             }
                         }
-                        out.push(Program { sys, setup: setup.clone(), tasks: vec![t[0].to_vec(), t[1].to_vec()] });
+                        out.push(Program { sys, setup: setup.clone(), tasks: vec![t[0].to_vec(), t[1].to_vec()], bound });
                     }
                 }
             }
@@ -185,27 +276,28 @@ fn programs_2x2(sys: Sys, alphabet: &[Op], setups: &[Vec<Op>]) -> Vec<Program> {
     out
 }
 
+fn uses_key(p: &Program, k: u8) -> bool {
+    p.setup.iter().chain(p.tasks.iter().flatten()).any(|o| o.key() == Some(k))
+}
+
 #[derive(Default)]
 struct DfsStats {
     evaluations: u64,
     nontrivial: HashSet<u64>,
     classes: BTreeMap<String, u64>,
     samples: Vec<serde_json::Value>,
-    /// key -> (pre-emptions, case, msg): the smallest failing case per key
-    failures: BTreeMap<String, (usize, Case, String)>,
+    /// key -> (case, msg)
+    failures: BTreeMap<String, (Case, String)>,
     known: BTreeMap<String, u64>,
     max_schedules_per_program: u64,
     programs: u64,
 }
 
 /// Depth-first search over the schedules of one program.
-fn dfs_program(p: &Program, known: &Known, st: &mut DfsStats, stop: &AtomicBool) {
+fn dfs_program(p: &Program, known: &Known, known_keys: &[String], st: &mut DfsStats, stop: &AtomicBool) {
     // (explicit choices, pre-emptions among them)
     let mut stack: Vec<(Vec<u8>, usize)> = vec![(Vec::new(), 0)];
     let mut schedules = 0u64;
-    // failure keys are memoised per (category, pre-emption sites of the failing run): the
-    // reduction re-runs are only needed once per such signature within a program
-    let mut memo: HashMap<(String, Vec<&'static str>), (String, String, Case, usize)> = HashMap::new();
     while let Some((prefix, pre)) = stack.pop() {
         if stop.load(Ordering::Relaxed) {
             return;
@@ -224,7 +316,7 @@ fn dfs_program(p: &Program, known: &Known, st: &mut DfsStats, stop: &AtomicBool)
         for i in prefix.len()..run.choices.len() {
             let ch = run.choices[i];
             let npre = pre + usize::from(ch.preemptive);
-            if npre > BOUND {
+            if npre > p.bound {
                 continue;
             }
             for c in 1..ch.options {
@@ -248,39 +340,16 @@ fn dfs_program(p: &Program, known: &Known, st: &mut DfsStats, stop: &AtomicBool)
         if an.failures.is_empty() {
             continue;
         }
-        let mut cats: Vec<&str> = Vec::new();
-        for f in &an.failures {
-            if cats.contains(&f.category.as_str()) {
-                continue;
-            }
-            cats.push(&f.category);
-            let sig = (f.category.clone(), an.preempt_sites.clone());
-            let (key, msg, mcase, mpre) = match memo.get(&sig) {
-                Some(x) => x.clone(),
-                None => {
-                    let one = Analysis { failures: vec![f.clone()], ..Analysis::default() };
-                    match keyed_failures(&case, &one) {
-                        Ok(mut k) if !k.is_empty() => {
-                            let k = k.remove(0);
-                            let mpre = k.case.schedule.iter().filter(|x| **x != 0).count();
-                            let v = (k.key, k.msg, k.case, mpre);
-                            memo.insert(sig, v.clone());
-                            v
-                        }
-                        Ok(_) => continue,
-                        Err(e) => {
-                            infra(format!("{e} — case {}", serde_json::to_string(&case).unwrap_or_default()));
-                            continue;
+        match attribute(&case, &an, known, known_keys) {
+            Err(e) => infra(format!("{e} — case {}", serde_json::to_string(&case).unwrap_or_default())),
+            Ok(list) => {
+                for a in list {
+                    match a {
+                        Attributed::Known(k) => *st.known.entry(k).or_default() += 1,
+                        Attributed::Violation(k, m, c) => {
+                            st.failures.entry(k).or_insert((c, m));
                         }
                     }
-                }
-            };
-            if known.is_open(&key) {
-                *st.known.entry(key).or_default() += 1;
-            } else {
-                let better = st.failures.get(&key).is_none_or(|(bp, bc, _)| (mpre, mcase.schedule.len()) < (*bp, bc.schedule.len()));
-                if better {
-                    st.failures.insert(key, (mpre, mcase, msg));
                 }
             }
         }
@@ -289,7 +358,7 @@ fn dfs_program(p: &Program, known: &Known, st: &mut DfsStats, stop: &AtomicBool)
     st.max_schedules_per_program = st.max_schedules_per_program.max(schedules);
 }
 
-fn run_dfs_section(ck: &mut Check, name: &'static str, scope: String, programs: Vec<Program>, shards: usize) {
+fn run_dfs_section(ck: &mut Check, name: &'static str, scope: String, programs: Vec<Program>, shards: usize, known_keys: &[String]) {
     if !ck.section_enabled(name) {
         return;
     }
@@ -298,7 +367,7 @@ fn run_dfs_section(ck: &mut Check, name: &'static str, scope: String, programs: 
     // regression replays first
     for (path, cj) in ck.stored_replays(name) {
         let Ok(case) = serde_json::from_value::<Case>(cj) else { continue };
-        let v = check_case(&case, &known);
+        let v = check_case(&case, &known, known_keys);
         ck.record_external(name, 1, Vec::new(), v.classes.iter().map(|c| (c.to_string(), 1)), Vec::new(), None);
         for k in &v.known_hits {
             ck.count_known(name, k, 1);
@@ -321,7 +390,7 @@ fn run_dfs_section(ck: &mut Check, name: &'static str, scope: String, programs: 
                     if i >= programs.len() || stop.load(Ordering::Relaxed) {
                         break;
                     }
-                    dfs_program(&programs[i], &known, &mut st, &stop);
+                    dfs_program(&programs[i], &known, known_keys, &mut st, &stop);
                 }
                 let mut g = total.lock().unwrap_or_else(|e| e.into_inner());
                 g.evaluations += st.evaluations;
@@ -340,10 +409,7 @@ fn run_dfs_section(ck: &mut Check, name: &'static str, scope: String, programs: 
                     }
                 }
                 for (k, v) in st.failures {
-                    let better = g.failures.get(&k).is_none_or(|(bp, bc, _)| (v.0, v.1.schedule.len()) < (*bp, bc.schedule.len()));
-                    if better {
-                        g.failures.insert(k, v);
-                    }
+                    g.failures.entry(k).or_insert(v);
                 }
             });
         }
@@ -357,7 +423,7 @@ fn run_dfs_section(ck: &mut Check, name: &'static str, scope: String, programs: 
     for (k, n) in st.known {
         ck.count_known(name, &k, n);
     }
-    for (key, (_, case, msg)) in st.failures {
+    for (key, (case, msg)) in st.failures {
         ck.report_external(name, &case, &key, &msg);
     }
     drain_infra(ck);
@@ -461,7 +527,34 @@ fn container_alphabet(keys: &[u8]) -> Vec<Op> {
     v
 }
 
+/// Development aid: VH_C11_BENCH=<runs> times the executor on one fixed case per system.
+fn bench(n: usize) {
+    for sys in [Sys::Memory, Sys::Disk, Sys::Container] {
+        let case = Case {
+            sys,
+            cfg: Cfg::roomy(),
+            setup: vec![Op::Put { k: 0 }],
+            tasks: vec![vec![Op::Get { k: 0 }, Op::Put { k: 0 }], vec![Op::Put { k: 0 }, Op::Remove { k: 0 }]],
+            schedule: vec![0, 0, 1, 0, 1, 1],
+        };
+        let n = if sys == Sys::Memory { n } else { n / 10 + 1 };
+        let t0 = std::time::Instant::now();
+        let mut points = 0usize;
+        for _ in 0..n {
+            let r = run_case(&case).expect("run");
+            points += r.choices.len();
+            let _ = analyze(&case, &r);
+        }
+        let el = t0.elapsed();
+        eprintln!("bench {sys:?}: {n} runs, {:.1} us/run, {} choice points/run", el.as_secs_f64() * 1e6 / n as f64, points / n);
+    }
+}
+
 fn main() {
+    if let Some(n) = std::env::var("VH_C11_BENCH").ok().and_then(|s| s.parse::<usize>().ok()) {
+        bench(n);
+        return;
+    }
     let mut ck = Check::from_args("C11", "exploration");
     let tier = ck.tier;
     ck.extra(
@@ -491,7 +584,7 @@ fn main() {
                 }
             };
             // judge without the known list: conclude_replay maps known keys itself
-            let v = check_case(&case, &Known::default());
+            let v = check_case(&case, &Known::default(), &[]);
             let infra_msgs: Vec<String> = std::mem::take(&mut *INFRA.lock().unwrap());
             if !infra_msgs.is_empty() {
                 for m in infra_msgs {
@@ -503,59 +596,69 @@ fn main() {
         }
     }
 
+    let known = ck.known().clone();
+    let known_keys: Vec<String> = open_keys(&known, &candidate_keys());
     let k01: [u8; 2] = [0, 1];
     let k0: [u8; 1] = [0];
 
     // --- exhaustive -----------------------------------------------------------------
     {
-        let setups: Vec<Vec<Op>> = tier.pick(vec![vec![], vec![Op::PutZero { k: 0 }]], vec![vec![], vec![Op::Put { k: 0 }], vec![Op::PutZero { k: 0 }], vec![Op::Put { k: 0 }, Op::PutZero { k: 1 }]]);
-        let progs = programs_2x2(Sys::Memory, &cache_alphabet(&k01), &setups);
+        // one key: bound 3; two keys: bound 2 (quick) / 3 (thorough)
+        let setups1: Vec<Vec<Op>> = vec![vec![], vec![Op::Put { k: 0 }], vec![Op::PutZero { k: 0 }]];
+        let setups2: Vec<Vec<Op>> = tier.pick(vec![vec![], vec![Op::PutZero { k: 0 }]], vec![vec![], vec![Op::Put { k: 0 }], vec![Op::PutZero { k: 0 }], vec![Op::Put { k: 0 }, Op::PutZero { k: 1 }]]);
+        let mut progs = programs_2x2(Sys::Memory, &cache_alphabet(&k0), &setups1, BOUND);
+        let one = progs.len();
+        let two: Vec<Program> = programs_2x2(Sys::Memory, &cache_alphabet(&k01), &setups2, tier.pick(2, BOUND)).into_iter().filter(|p| uses_key(p, 1)).collect();
+        let ntwo = two.len();
+        progs.extend(two);
         let scope = format!(
-            "MemoryCache: all {} programs of 2 tasks x 2 ops over {{get, contains, put, put_with_ttl(ZERO), remove}} x {{key0, key1}} + clear (one per task/key symmetry class), setups {:?}; every schedule with <= {BOUND} pre-emptions at the sched_point sites",
-            progs.len(),
-            setups
+            "MemoryCache, 2 tasks x 2 ops over {{get, contains, put, put_with_ttl(ZERO), remove}} + clear, one program per task/key symmetry class, every schedule up to the pre-emption bound at the sched_point sites:              {one} programs on key0 only with setups {setups1:?} (<= {BOUND} pre-emptions) + {ntwo} programs that also use key1 with setups {setups2:?} (<= {} pre-emptions)",
+            tier.pick(2, BOUND)
         );
-        run_dfs_section(&mut ck, "dfs-memory", scope, progs, 16);
+        run_dfs_section(&mut ck, "dfs-memory", scope, progs, 16, &known_keys);
     }
     {
-        let (alphabet, setups): (Vec<Op>, Vec<Vec<Op>>) = tier.pick(
-            (cache_alphabet(&k0), vec![vec![], vec![Op::PutZero { k: 0 }]]),
-            (cache_alphabet(&k01), vec![vec![], vec![Op::Put { k: 0 }], vec![Op::PutZero { k: 0 }]]),
-        );
-        let progs = programs_2x2(Sys::Disk, &alphabet, &setups);
+        let setups1: Vec<Vec<Op>> = vec![vec![], vec![Op::Put { k: 0 }], vec![Op::PutZero { k: 0 }]];
+        let mut progs = programs_2x2(Sys::Disk, &cache_alphabet(&k0), &setups1, tier.pick(2, BOUND));
+        let one = progs.len();
+        let mut ntwo = 0;
+        if tier == vh_engine::Tier::Thorough {
+            let two: Vec<Program> = programs_2x2(Sys::Disk, &cache_alphabet(&k01), &[vec![], vec![Op::PutZero { k: 0 }]], 2).into_iter().filter(|p| uses_key(p, 1)).collect();
+            ntwo = two.len();
+            progs.extend(two);
+        }
         let scope = format!(
-            "DiskCache (flat layout): all {} programs of 2 tasks x 2 ops over {:?} (one per symmetry class), setups {:?}; every schedule with <= {BOUND} pre-emptions at the sched_point sites",
-            progs.len(),
-            alphabet,
-            setups
+            "DiskCache (flat layout), 2 tasks x 2 ops over {{get, contains, put, put_with_ttl(ZERO), remove}} + clear, one program per symmetry class, every schedule up to the pre-emption bound at the sched_point sites:              {one} programs on key0 only with setups {setups1:?} (<= {} pre-emptions) + {ntwo} programs that also use key1 (<= 2 pre-emptions)",
+            tier.pick(2, BOUND)
         );
-        run_dfs_section(&mut ck, "dfs-disk", scope, progs, 16);
+        run_dfs_section(&mut ck, "dfs-disk", scope, progs, 16, &known_keys);
     }
     {
-        let (alphabet, setups): (Vec<Op>, Vec<Vec<Op>>) = tier.pick((container_alphabet(&k0), vec![vec![], vec![Op::Put { k: 0 }]]), (container_alphabet(&k01), vec![vec![], vec![Op::Put { k: 0 }]]));
-        let progs = programs_2x2(Sys::Container, &alphabet, &setups);
+        let setups: Vec<Vec<Op>> = vec![vec![], vec![Op::Put { k: 0 }]];
+        let mut progs = programs_2x2(Sys::Container, &container_alphabet(&k0), &setups, BOUND);
+        let one = progs.len();
+        let two: Vec<Program> = programs_2x2(Sys::Container, &container_alphabet(&k01), &setups, tier.pick(1, BOUND)).into_iter().filter(|p| uses_key(p, 1)).collect();
+        let ntwo = two.len();
+        progs.extend(two);
         let scope = format!(
-            "DynamicContainer: all {} programs of 2 tasks x 2 ops over {:?} (Put = write, Get = read, Has = query; one per symmetry class), setups {:?}; every schedule with <= {BOUND} pre-emptions at the sched_point sites",
-            progs.len(),
-            alphabet,
-            setups
+            "DynamicContainer, 2 tasks x 2 ops over {{write, read, query, remove}} (content-addressed: key k = key of data k), one program per symmetry class, setups {setups:?}, every schedule up to the pre-emption bound at the sched_point sites:              {one} programs on key0 only (<= {BOUND} pre-emptions) + {ntwo} programs that also use key1 (<= {} pre-emptions)",
+            tier.pick(1, BOUND)
         );
-        run_dfs_section(&mut ck, "dfs-container", scope, progs, 16);
+        run_dfs_section(&mut ck, "dfs-container", scope, progs, 16, &known_keys);
     }
 
     // --- random -----------------------------------------------------------------------
-    let known = ck.known().clone();
-    let kn = known.clone();
-    ck.run(Section::pbt("random-memory", tier.pick(20_000, 2_000_000), || random_case(Sys::Memory), move |c: &Case| check_case(c, &kn)).shards(16));
+    let (kn, kk) = (known.clone(), known_keys.clone());
+    ck.run(Section::pbt("random-memory", tier.pick(30_000, 3_000_000), || random_case(Sys::Memory), move |c: &Case| check_case(c, &kn, &kk)).shards(16));
     drain_infra(&mut ck);
-    let kn = known.clone();
-    ck.run(Section::pbt("random-disk", tier.pick(6_000, 600_000), || random_case(Sys::Disk), move |c: &Case| check_case(c, &kn)).shards(16));
+    let (kn, kk) = (known.clone(), known_keys.clone());
+    ck.run(Section::pbt("random-disk", tier.pick(8_000, 800_000), || random_case(Sys::Disk), move |c: &Case| check_case(c, &kn, &kk)).shards(16));
     drain_infra(&mut ck);
-    let kn = known.clone();
-    ck.run(Section::pbt("random-container", tier.pick(2_000, 200_000), || random_case(Sys::Container), move |c: &Case| check_case(c, &kn)).shards(16));
+    let (kn, kk) = (known.clone(), known_keys.clone());
+    ck.run(Section::pbt("random-container", tier.pick(3_000, 300_000), || random_case(Sys::Container), move |c: &Case| check_case(c, &kn, &kk)).shards(16));
     drain_infra(&mut ck);
-    let kn = known.clone();
-    ck.run(Section::pbt("evict-memory", tier.pick(10_000, 1_000_000), evict_case, move |c: &Case| check_case(c, &kn)).shards(16));
+    let (kn, kk) = (known.clone(), known_keys.clone());
+    ck.run(Section::pbt("evict-memory", tier.pick(15_000, 1_500_000), evict_case, move |c: &Case| check_case(c, &kn, &kk)).shards(16));
     drain_infra(&mut ck);
 
     ck.finish();
